@@ -232,6 +232,11 @@ A history: constructors from pairs / mapping / another instance (either side), a
 `add`, `remove`, `__setitem__`, `__delitem__`, `update` (pairs, mapping, or another
 ManyToMany - also the instance itself or its own inverse), `replace`, through either side. -/
 
+/-- ManyToMany is modelled as a class of its own (two dicts of sets, six mutators): that is only right while it
+    inherits no mutating dict method from a builtin container - every one it has is a Python function of the class
+    (`Generated.m2mForeignMutators` is regenerated from the evaluated class on every run) -/
+theorem m2m_no_foreign_mutators : Generated.m2mForeignMutators = [] := by decide
+
 /-- MAIN: after any history every instance satisfies the invariant (both dicts have unique keys,
     no empty and no duplicated set element, `v ∈ data[k] ↔ k ∈ inv[v]`) -/
 theorem m2m_invariant (cmds : List (M2MCmd α)) (regs : List (M2M α))
